@@ -996,6 +996,203 @@ Definition sk_register : list ev :=
    IfE;
    LoopE].
 
+Definition sk_fs_add : list ev :=
+  [IfB;
+   Call "restrict";
+   Else;
+   IfE;
+   Call "register"].
+
+Definition sk_resolve_from_tag : list ev :=
+  [Rd "search_tags";
+   LoopB;
+   Call "resolve_from_id";
+   Call "append";
+   LoopE;
+   Ret].
+
+Definition sk_resolve_from_id : list ev :=
+  [Rd "simple";
+   IfB;
+   Rd "simple";
+   Ret;
+   Else;
+   IfE;
+   Rd "sequence";
+   Ret].
+
+Definition sk_source_id_to_path : list ev :=
+  [TryB;
+   Rd "source_ids";
+   Ret;
+   Handler "KeyError";
+   Rd "source_ids";
+   TryE;
+   Ret].
+
+Definition sk_collection_init : list ev :=
+  [Call "reset"].
+
+Definition sk_collection_reset : list ev :=
+  [Wr "by_path"].
+
+Definition sk_tm_init : list ev :=
+  [Call "event_new";
+   Call "event_clear";
+   Call "thread_new";
+   Wr "running"].
+
+Definition sk_tm_start : list ev :=
+  [Call "thread_start";
+   Wr "running"].
+
+Definition sk_tm_stop : list ev :=
+  [Rd "running";
+   IfB;
+   Call "event_set";
+   Call "thread_join";
+   Wr "running";
+   Else;
+   IfE].
+
+Definition sk_kill_workers : list ev :=
+  [Call "active_children";
+   LoopB;
+   IfB;
+   IfB;
+   Call "remember_worker";
+   Else;
+   IfE;
+   Else;
+   IfE;
+   LoopE;
+   Call "getpid";
+   Call "ps_children";
+   LoopB;
+   IfB;
+   Call "getpid";
+   Continue;
+   Else;
+   IfE;
+   TryB;
+   Call "kill";
+   Handler "ProcessLookupError";
+   TryE;
+   LoopE].
+
+Definition sk_cm_init : list ev :=
+  [Wr "search_catalog";
+   Wr "global_constraints";
+   Wr "global_restrictions"].
+
+Definition sk_fs_stats : list ev :=
+  [Rd "stats";
+   Ret].
+
+Definition sk_rse_init : list ev :=
+  [Wr "msg"].
+
+Definition sk_fse_init : list ev :=
+  [Wr "msg"].
+
+Definition sk_searchdefbase_init : list ev :=
+  [Rd "arg_constraints";
+   Wr "constraints_attr";
+   Rd "id"].
+
+Definition sk_searchdefbase_constraints : list ev :=
+  [Rd "constraint_id";
+   Rd "constraints_attr";
+   Ret].
+
+Definition sk_searchdefbase_id : list ev :=
+  [Call "uuid4";
+   Ret].
+
+Definition sk_searchdef_init : list ev :=
+  [Rd "arg_pattern";
+   Call "isinstance";
+   IfB;
+   Rd "arg_pattern";
+   Call "re_compile";
+   Wr "patterns";
+   Else;
+   Wr "patterns";
+   Rd "arg_pattern";
+   LoopB;
+   Call "re_compile";
+   Wr "patterns";
+   LoopE;
+   IfE;
+   Rd "arg_store_result_contents";
+   Wr "store_result_contents";
+   Rd "arg_tag";
+   Wr "tag";
+   Rd "arg_field_info";
+   Wr "field_info";
+   Rd "arg_hint";
+   Wr "hint";
+   Rd "arg_hint";
+   IfB;
+   Rd "arg_hint";
+   Call "re_compile";
+   Wr "hint";
+   Else;
+   IfE;
+   Wr "sequence_def";
+   Call "super_init"].
+
+Definition sk_searchdef_link_to_sequence : list ev :=
+  [Rd "arg_sequence_def";
+   Wr "sequence_def";
+   Rd "arg_tag";
+   Wr "tag"].
+
+Definition sk_searchtask_init : list ev :=
+  [Wr "proc";
+   Rd "arg_info";
+   Wr "info";
+   Call "stats_new";
+   Wr "stats";
+   Rd "arg_constraints_manager";
+   Wr "constraints_manager";
+   Rd "arg_results_manager";
+   Wr "results_manager";
+   Wr "decode_kwargs";
+   Rd "arg_decode_errors";
+   IfB;
+   Rd "arg_decode_errors";
+   Wr "decode_kwargs";
+   Else;
+   IfE;
+   Wr "results_buffer"].
+
+Definition sk_resultsmanager_init : list ev :=
+  [Rd "arg_results_queue";
+   Rd "arg_results_collection";
+   IfB;
+   RaiseE "SearchTaskError";
+   Else;
+   IfE;
+   Rd "arg_results_store";
+   Wr "results_store";
+   Rd "arg_results_queue";
+   Wr "results_queue";
+   Rd "arg_results_collection";
+   Wr "results_collection"].
+
+Definition sk_resultsmanager_results_store : list ev :=
+  [Rd "results_store";
+   Ret].
+
+Definition sk_resultsmanager_results_queue : list ev :=
+  [Rd "results_queue";
+   Ret].
+
+Definition sk_resultsmanager_results_collection : list ev :=
+  [Rd "results_collection";
+   Ret].
+
 Definition sk_rsp_init : list ev :=
   [Call "base_init";
    Call "mgr_value";
